@@ -21,13 +21,20 @@ GroupOfAction(s, a) ==
   ELSE IF Has(a, "acct") /\ Has(s.accts, a.acct) THEN s.accts[a.acct].group
   ELSE "none"
 
-C15Acc0 == [pauses |-> 0, reset |-> BZero, have |-> FALSE]
+\* accumulator: successful pauses since the daily counter was last reset, the stored reset stamp, and the *time at which* the
+\* counter was last reset (a reset is an event: the step at which the stored stamp changes or the daily count falls back)
+C15Acc0 == [pauses |-> 0, reset |-> BZero, have |-> FALSE, at |-> BZero, haveAt |-> FALSE]
+C15ResetEvent(acc, pre, e, post) ==
+  \/ (acc.have /\ post.fee.panic.reset # acc.reset)
+  \/ (Has(pre.fee, "panic") /\ post.fee.panic.daily < pre.fee.panic.daily)
+  \/ (Has(pre.fee, "panic") /\ e.ev = "panic_pause" /\ Ok(e) /\ post.fee.panic.daily <= pre.fee.panic.daily)
 C15AccNext(acc, pre, e, post) ==
   IF ~Has(post.fee, "panic") THEN acc
   ELSE LET r == post.fee.panic.reset
-           changed == acc.have /\ r # acc.reset
+           changed == C15ResetEvent(acc, pre, e, post)
            n0 == IF changed \/ ~acc.have THEN 0 ELSE acc.pauses
-       IN [pauses |-> n0 + (IF e.ev = "panic_pause" /\ Ok(e) THEN 1 ELSE 0), reset |-> r, have |-> TRUE]
+       IN [pauses |-> n0 + (IF e.ev = "panic_pause" /\ Ok(e) THEN 1 ELSE 0), reset |-> r, have |-> TRUE,
+           at |-> IF changed THEN post.clock.ts ELSE acc.at, haveAt |-> acc.haveAt \/ changed]
 
 C15(pre, e, post, acc, line) ==
   IF ~Has(post.fee, "panic") \/ ~Has(pre.fee, "panic") THEN TRUE ELSE
@@ -51,6 +58,10 @@ C15(pre, e, post, acc, line) ==
   /\ Chk("C15", "c_resets_24h_apart", line,
          (acc.have /\ qp.reset # acc.reset) => BGe(BSub(qp.reset, acc.reset), DAY_SECS),
          [old |-> acc.reset, new |-> qp.reset])
+  \* ... measured between the moments at which resets happen, whatever stamp the program stores for them
+  /\ Chk("C15", "c_reset_events_24h_apart", line,
+         (acc.haveAt /\ C15ResetEvent(acc, pre, e, post)) => BGe(BSub(now, acc.at), DAY_SECS),
+         [previous_reset_at |-> acc.at, now |-> now])
   /\ (e.ev = "panic_unpause_perm" /\ Plain(e.a)) =>
        Chk("C15", "d_expired_pause_can_be_cleared_by_anyone", line,
            (PFlag(pp) /\ BGe(now, BAdd(pp.start, PAUSE_SECS))) => Ok(e), [err |-> e.err])
